@@ -719,6 +719,61 @@ func c10d(c *Ctx, r *Report) {
 	if n < 8 {
 		r.Undecided(clause, "R2 TOKEN-BOUNDARY", "Parser/lexer-state-functions", "Parser/Lex.go", fmt.Sprintf("only %d state functions with next() calls found (10 confirmed by hand)", n))
 	}
+	// every alternative starts from a fresh rule record: nothing (a %prec, an action) carries over from the previous one
+	if f := c.need(r, clause, "Parser", "parser", "parseRule"); f != nil {
+		info := f.Pkg.TypesInfo
+		ok, found := false, false
+		ast.Inspect(f.Decl.Body, func(n ast.Node) bool {
+			cc, isC := n.(*ast.CaseClause)
+			if !isC {
+				return true
+			}
+			isOr := false
+			for _, e := range cc.List {
+				if s, okS := constString(info, e); okS && s == "RuleOR" {
+					isOr = true
+				}
+			}
+			if !isOr {
+				return true
+			}
+			found = true
+			// the rule variable: the one appended to the result in this clause
+			var ruleObj types.Object
+			for _, s := range cc.Body {
+				if as, isA := s.(*ast.AssignStmt); isA && len(as.Rhs) == 1 {
+					if call, isCall := as.Rhs[0].(*ast.CallExpr); isCall && builtinName(info, call) == "append" && len(call.Args) == 2 {
+						ruleObj = identObj(info, call.Args[1])
+					}
+				}
+			}
+			for _, s := range cc.Body {
+				as, isA := s.(*ast.AssignStmt)
+				if !isA || len(as.Lhs) != 1 || identObj(info, as.Lhs[0]) != ruleObj || ruleObj == nil {
+					continue
+				}
+				if cl, isCl := unparen(as.Rhs[0]).(*ast.CompositeLit); isCl {
+					fresh := true
+					for _, el := range cl.Elts {
+						if kv, isKV := el.(*ast.KeyValueExpr); isKV {
+							if k, isK := kv.Key.(*ast.Ident); isK && k.Name != "LeftPart" && k.Name != "LineNo" {
+								fresh = false
+							}
+						}
+					}
+					ok = fresh
+				}
+			}
+			return true
+		})
+		if !found {
+			r.Undecided(clause, "R3 FRESH-RECORD", f.Name+"/alternative-starts-fresh", c.pos(f.Decl.Pos()), "no `case RuleOR` clause")
+		} else {
+			r.Check(ok, clause, "R3 FRESH-RECORD", f.Name+"/alternative-starts-fresh", c.pos(f.Decl.Pos()),
+				"at `|` the finished alternative is stored and the next one starts from a new RuleDef carrying only the left-hand side and the line",
+				"at `|` the next alternative does not start from a fresh RuleDef{LeftPart, LineNo}: fields of the previous alternative (its %prec symbol) leak into the following ones")
+		}
+	}
 	// literal naming: wherever a token that may be a character literal becomes a symbol NAME, the literal's
 	// temporary name (genTempName) is used — at all sites, so the same literal is one symbol everywhere
 	for _, fn := range []string{"parseTokendef", "parsePrecList", "parseRule"} {
